@@ -177,7 +177,7 @@ def audit(pid, modules=None):
     res = {}
     # messages: "'X' depends on axioms: [a, b]" (possibly wrapped) / "'X' does not depend on any axioms"
     flat = re.sub(r"\s+", " ", out)
-    for m in re.finditer(r"'([^']+)' (does not depend on any axioms|depends on axioms: \[([^\]]*)\])", flat):
+    for m in re.finditer(r"'(\S+)' (does not depend on any axioms|depends on axioms: \[([^\]]*)\])", flat):
         axs = [a.strip() for a in (m.group(3) or "").split(",") if a.strip()]
         res[m.group(1)] = axs
     out_list = []
